@@ -431,7 +431,7 @@ Proof.
     { apply existsb_exists. exists x. split; [exact Hin|]. now rewrite Nat.eqb_refl, Htr. }
     rewrite He. now rewrite andb_false_r.
   - intros Hnin. assert (He : existsb (fun y => Nat.eqb y x && mem y (m_tracked s)) l = false).
-    { destruct (existsb _ l) eqn:E; [|reflexivity]. apply existsb_exists in E. destruct E as [y [Hy Hb]].
+    { match goal with |- ?e = false => destruct e eqn:E; [|reflexivity] end. apply existsb_exists in E. destruct E as [y [Hy Hb]].
       apply andb_true_iff in Hb. destruct Hb as [Hb _]. apply Nat.eqb_eq in Hb. subst y. contradiction. }
     rewrite He. now rewrite andb_true_r.
 Qed.
